@@ -129,12 +129,16 @@ impl Answers {
         // Make sure everyone consumed its answer token
         let mut guard = self.condvar.wait_while(guard, |t| t.is_some());
         *guard = Some(token);
+        #[cfg(assets_manager_verif)]
+        crate::verif::emit("Notify", || format!("\"token\":{token}"));
         self.condvar.notify_all();
     }
 
     fn wait_for_answer(&self, token: usize) {
         let guard = self.current_token.lock();
         let mut token = self.condvar.wait_while(guard, |t| *t != Some(token));
+        #[cfg(assets_manager_verif)]
+        crate::verif::emit("Consume", || format!("\"token\":{}", token.unwrap_or(usize::MAX)));
         *token = None;
     }
 }
@@ -192,6 +196,8 @@ impl HotReloader {
 
     pub(crate) fn reload(&self, map: &crate::cache::AssetMap) {
         let token = self.answers.get_unique_token();
+        #[cfg(assets_manager_verif)]
+        crate::verif::emit("Request", || format!("\"token\":{token}"));
         if self
             .sender
             .send(CacheMessage::Ptr(
@@ -235,6 +241,8 @@ fn hot_reloading_thread(
         // We don't use `select` method here as we always want to check
         // `cache_msg` channel first.
         let ready = select.ready();
+        #[cfg(assets_manager_verif)]
+        crate::verif::emit("Select", || format!("\"ready\":{ready}"));
 
         loop {
             match cache_msg.try_recv() {
@@ -266,4 +274,47 @@ fn hot_reloading_thread(
     }
 
     log::info!("Stopping hot-reloading");
+    #[cfg(assets_manager_verif)]
+    crate::verif::emit("Exit", String::new);
+}
+
+/// Test-only access to the private watcher pieces (`--cfg assets_manager_verif`).
+#[cfg(assets_manager_verif)]
+pub mod verif_api {
+    use super::{EventSender, Events};
+    use crate::source::OwnedDirEntry;
+    use std::path::{Path, PathBuf};
+
+    /// The receiving end of a test event channel.
+    #[derive(Debug)]
+    pub struct TestReceiver(crossbeam_channel::Receiver<Events>);
+
+    impl TestReceiver {
+        /// Drains the batches received so far.
+        pub fn drain(&self) -> Vec<Vec<OwnedDirEntry>> {
+            let mut out = Vec::new();
+            while let Ok(ev) = self.0.try_recv() {
+                let mut batch = Vec::new();
+                ev.for_each(|e| batch.push(e));
+                out.push(batch);
+            }
+            out
+        }
+    }
+
+    /// An `EventSender` bound to a receiver the test keeps.
+    pub fn test_channel() -> (EventSender, TestReceiver) {
+        let (tx, rx) = crossbeam_channel::unbounded();
+        (EventSender(tx), TestReceiver(rx))
+    }
+
+    /// The real `id_of_path`.
+    pub fn id_of_path(root: &Path, path: &Path) -> Option<OwnedDirEntry> {
+        super::watcher::verif_id_of_path(root, path)
+    }
+
+    /// Feeds one `notify` event to the real event handler bound to `events`.
+    pub fn handle_event(roots: Vec<PathBuf>, events: EventSender, event: notify::Event) {
+        super::watcher::verif_handle_event(roots, events, event)
+    }
 }
